@@ -76,11 +76,13 @@ class Deep:
         """Shutdown deep."""
         if not self.started:
             return
-        self.trigger_handler.shutdown()
-        self.task_handler.flush()
-        self.poll.shutdown()
-        for plugin in self.config.plugins:
-            plugin.shutdown()
+        steps = [self.trigger_handler.shutdown, self.task_handler.flush, self.poll.shutdown]
+        steps += [plugin.shutdown for plugin in self.config.plugins]
+        for step in steps:
+            try:
+                step()
+            except BaseException:
+                deep.logging.exception("Failed to complete shutdown step %s", step)
         deep.logging.info("Deep is shutdown.")
         self.started = False
 
